@@ -208,11 +208,14 @@ func (e *Explorer) val(s *pstate, v ssa.Value) *T {
 	case *ssa.Global:
 		return &T{Op: "gaddr", S: v.Name(), Ty: v.Type()}
 	case *ssa.Function:
-		return &T{Op: "fn", S: v.String(), Ty: v.Type()}
+		return &T{Op: "fn", S: fnKey(v), Ty: v.Type()}
 	case *ssa.Builtin:
 		return &T{Op: "builtin", S: v.Name()}
 	case *ssa.Alloc:
 		return &T{Op: "alloc", S: v.Comment, C: int64(allocID(v)), Ty: v.Type()}
+	case *ssa.FieldAddr, *ssa.IndexAddr:
+		// an address used as a value (passed to a call, stored): name the storage
+		return &T{Op: "addr", A: []*T{e.lvalue(s, v)}, Ty: v.Type()}
 	}
 	// value defined in a block not on this fragment (e.g. before a loop header)
 	return &T{Op: "outer", S: v.Name(), Ty: v.Type()}
@@ -666,6 +669,10 @@ func (e *Explorer) runBlock(b *ssa.BasicBlock, pred int, s *pstate, start int) {
 			s.regs[in] = &T{Op: "next", A: []*T{e.val(s, in.Iter)}, E: s.seq, Ty: in.Type()}
 		case *ssa.Call:
 			e.call(s, in, &in.Call, in, b.Index)
+			if cal := in.Call.StaticCallee(); cal != nil && cal.Pkg != nil && cal.Pkg.Pkg.Path() == "os" && cal.Name() == "Exit" {
+				e.finish(s, start, "exit", nil)
+				return
+			}
 		case *ssa.Go:
 			e.callEvent(s, "go", in, &in.Call, nil, b.Index)
 		case *ssa.Defer:
